@@ -13,13 +13,15 @@ THEOREMS = [
     "Mtv.C13.ids_unique",
     "Mtv.C13.registry_matches_api",
     "Mtv.C13.registry_matches_service",
+    "Mtv.C13.field_names_match",
     "Mtv.C13.tables_valid",
     "Mtv.C13.wrappers_match",
     "Mtv.C13.nothing_extra_partial",
     "Mtv.C13.methods_match",
 ]
 RULE = ("programs = rows of the regenerated tables: every definition of schemes/api_latest.tl and schemes/mtproto.tl "
-        "(translator validated by printing each back to its source line; id = CRC-32 of the canonical line), every "
+        "(translator validated by printing each back to its source line; id = CRC-32 of the canonical line; parameter "
+        "names against the Go field names position by position), every "
         "registered constructor (reflection over the built tree), every generated client method and hand-written "
         "wrapper (go/parser). Each row is compared by the Lean kernel (per-chunk decide +kernel obligations); the "
         "compiled driver names the rows for which an obligation fails. distinct = number of rows")
@@ -28,6 +30,9 @@ KINDS = {
     "crc": "the schema definition does not print back to its source line, or its id is not the CRC-32 of its canonical line",
     "api": "no registered type with this definition's id and layout (fields in order, type, flag bit, flags-word position)",
     "service": "no registered type with this service definition's id and layout",
+    "names": "field of the registered type is not named after the schema parameter in its position (definition:parameter/GoField; "
+             "names compared after dropping '_' and folding case, listed exceptions aside) - e.g. two parameters of one type "
+             "declared in the wrong order: the codec assigns by position, so each field receives the other's value",
     "rows": "constructor missing from the join table of its type",
     "reg": "registered constructor missing from the join table of one of its interfaces / its enum type",
     "methods": "generated client method does not send its function's constructor with arguments in the schema's parameter positions / does not return the declared result kind",
@@ -84,6 +89,8 @@ def run(ctx):
                                          "row of the regenerated tables named by the driver")
         if rep.get("counts") == "false":
             ctx.report_unexplained("join-table counts no longer check", rep)
+        if rep.get("nametable") == "false":
+            ctx.report_unexplained("the field-name table is not the registry's (rows, ids, field counts or texts differ)", rep)
         if rep.get("dupids") == "true":
             ctx.report_unexplained("constructor ids are not unique / tables not sorted by id", rep)
         try:
@@ -92,7 +99,7 @@ def run(ctx):
         except ValueError:
             pass
         ctx.samples = [{"row": "inputPeerUser#7b8e7de6 user_id:int access_hash:long = InputPeer  <->  telegram.InputPeerUser{UserID int32; AccessHash int64}"},
-                       {"driver_report": {k: rep.get(k) for k in list(KINDS) + ["counts", "dupids", "ndefs", "nreg", "nmethods"]}}]
+                       {"driver_report": {k: rep.get(k) for k in list(KINDS) + ["counts", "dupids", "nametable", "ndefs", "nreg", "nmethods"]}}]
     concrete = [v for v in ctx.violations if not v.get("no_input")]
     if not ok and not concrete:
         broken = [o for o in ctx.obligations if not o[1]]
